@@ -49,6 +49,11 @@ func New[K comparable, V any]() *Map[K, V] {
 }
 
 func (orderedMap *Map[K, V]) Set(key K, value V) {
+	// the zero value of a Map is an empty map, for Set as for every other method
+	if orderedMap.records == nil {
+		orderedMap.records = make(map[K]V)
+	}
+
 	if _, found := orderedMap.records[key]; !found {
 		orderedMap.order = append(orderedMap.order, key)
 	}
@@ -120,9 +125,25 @@ func (orderedMap *Map[K, V]) Values() []V {
 	return values
 }
 
+// Equal tells whether both maps hold the same keys, in the same order, with
+// equal values. The way the maps were built does not matter: a map emptied by
+// Remove is equal to a new one.
 func (orderedMap *Map[K, V]) Equal(other *Map[K, V]) bool {
-	return cmp.Equal(orderedMap.order, other.order) &&
-		cmp.Equal(orderedMap.records, other.records)
+	if len(orderedMap.order) != len(other.order) {
+		return false
+	}
+
+	for i, key := range orderedMap.order {
+		if other.order[i] != key {
+			return false
+		}
+
+		if !cmp.Equal(orderedMap.records[key], other.records[key]) {
+			return false
+		}
+	}
+
+	return true
 }
 
 // Sort sorts the keys using the provided less function, keeping equal elements
